@@ -71,6 +71,57 @@ def slice_axiom(s):
               AND(gt(hi, L), lt(L, lo), eq(s, C(0))))
 
 
+def _octet_leaves(t):
+    """(set of (root, index) octet atoms, has_other_leaf) of a term"""
+    octs, other = set(), False
+    stack = [t]
+    while stack:
+        x = stack.pop()
+        if not isinstance(x, T):
+            if isinstance(x, tuple):
+                stack.extend(x)
+            continue
+        if x.k == "idx" and x.a[0].k == "sym" and x.a[1].k == "const" and isinstance(x.a[1].a[0], int) and x.a[1].a[0] >= 0:
+            octs.add((x.a[0].a[0], x.a[1].a[0]))
+            continue
+        if x.k in ("sym", "obj", "call", "unpacked", "slice", "bcat", "crc16v") or (x.k == "un" and x.a[0] == "len"):
+            other = True
+            continue
+        if x.k == "const":
+            continue
+        stack.extend(a for a in x.a if isinstance(a, (T, tuple)))
+    return octs, other
+
+
+def single_octet_entails(facts, goal):
+    """Bit-level entailment by enumeration: when the goal speaks about one octet of the input only, it is decided over
+    all 256 values of that octet against the facts that speak about that octet only (dropping the other facts is sound
+    for proving).  Covers equivalent spellings of a mask/shift/divmod test that the linear procedure sees as
+    unrelated atoms."""
+    from .terms import evaluate, EvalError
+    go, other = _octet_leaves(goal)
+    if other or len(go) != 1:
+        return False
+    (root, k), = go
+    sel = []
+    for f in facts:
+        fo, oth = _octet_leaves(f)
+        if not oth and fo == go:
+            sel.append(f)
+    if not sel:
+        return False
+    for v in range(256):
+        env = {root: bytes(k) + bytes([v])}
+        try:
+            if all(bool(evaluate(f, env)) for f in sel) and not bool(evaluate(goal, env)):
+                return False
+        except EvalError:
+            return False
+        except Exception:
+            return False
+    return True
+
+
 def mod_axioms(facts):
     """(A % c) == 0 with a positive constant c: A is a multiple of c, so A <= 0 or A >= c (the only consequence the
     linear procedure can use; it is what makes `remaining % record_size == 0` and `remaining > 0` give one whole record)"""
@@ -236,6 +287,8 @@ def prove(facts, goal, max_cases=None, _lazy=False, _depth=0, _fsplit=0, _univer
     facts = [truthy(f) for f in facts]
     if _universe is None:
         _universe = facts       # a concrete witness has to satisfy all of these, whatever subset a sub-proof works with
+        if _depth == 0 and _fsplit == 0 and single_octet_entails(facts, goal):
+            return "proved", None
     if contradictory(facts):
         return "proved", None
     if _depth < 5:
@@ -818,6 +871,21 @@ def simplify(t, facts, _cache=None):
             inner = x.a[0]
             a = inner.a[1]
             c, d = x.a[1], x.a[2]
+            # negative bounds count from the end of the inner slice: exact when the inner slice is not clamped and the
+            # bound does not reach before its start
+            neg = [q for q in (c, d) if q.k == "const" and isinstance(q.a[0], int) and q.a[0] < 0]
+            if neg and not is_const(inner.a[2], None) and unclamped(inner):
+                ilen_l = linearize(inner.a[2]) - linearize(a)
+                def fix(q):
+                    if q.k == "const" and isinstance(q.a[0], int) and q.a[0] < 0:
+                        nq = lin_term(ilen_l + Lin({}, q.a[0]))
+                        return nq if proved(binop(">=", nq, C(0))) else None
+                    return q
+                c2, d2 = fix(c), fix(d)
+                if c2 is not None and d2 is not None:
+                    if is_const(d2, None):
+                        return f(T("slice", inner, c2, lin_term(ilen_l), ty="bytes"))
+                    return f(T("slice", inner, c2, d2, ty="bytes"))
             if is_const(inner.a[2], None):
                 # open inner slice: positions simply shift (a <= len(b) needed for exactness of an open outer end)
                 if not is_const(d, None):
